@@ -198,8 +198,11 @@ class _EG(_Adapter):
 
         c = self.cfg
         learner = ExactTableRegressor() if c["moment"] == "BoundedGroupLoss" else ExactTable()
+        extra = {}
+        if c.get("costs") and c["moment"] != "BoundedGroupLoss":
+            extra["objective"] = fr.ErrorRate(costs=dict(c["costs"]))  # a user-supplied objective object, kept across refits
         return fr.ExponentiatedGradient(learner, _moment(c["moment"], c["bound"]), eps=c["eps"], max_iter=c["max_iter"],
-                                        nu=c["nu"], eta0=c["eta0"], run_linprog_step=c["lp"])
+                                        nu=c["nu"], eta0=c["eta0"], run_linprog_step=c["lp"], **extra)
 
 
     def _xy(self, k):
@@ -529,7 +532,8 @@ def _eg_hist(draw):
                        "bound": draw(st.sampled_from([0.01, 0.05, 0.2])), "eps": draw(st.sampled_from([0.01, 0.05])),
                        "max_iter": draw(st.sampled_from([2, 5, 10])),
                        "nu": draw(st.sampled_from([1e-6, 1e-3, 0.05, 1e-3, 0.05, None])),
-                       "eta0": draw(st.sampled_from([0.5, 2.0])), "lp": draw(st.booleans())}}
+                       "eta0": draw(st.sampled_from([0.5, 2.0])), "lp": draw(st.booleans()),
+                       "costs": draw(st.sampled_from([None, None, {"fp": 1.0, "fn": 1.0}, {"fp": 0.5, "fn": 2.0}]))}}
 
 
 def _share_X(draw, h):
@@ -704,7 +708,7 @@ def _enumerate(tier):
                    "config": {"moment": "DemographicParity", "bound": 0.01, "grid_size": 11, "grid_limit": 2.0, "cw": 0.0},
                    "config2": {"cw": 1.0, "grid_size": 6}}
             yield {"estimator": "eg", "ops": s, "seed": 5, "D1": _RED_D[0], "D2": _RED_D2_SAME_X,
-                   "config": {"moment": "EqualizedOdds", "bound": 0.05, "eps": 0.05, "max_iter": 5, "nu": 1e-3, "eta0": 2.0, "lp": False},
+                   "config": {"moment": "EqualizedOdds", "bound": 0.05, "eps": 0.05, "max_iter": 5, "nu": 1e-3, "eta0": 2.0, "lp": False, "costs": {"fp": 0.5, "fn": 2.0}},
                    "config2": {"eps": 0.2, "lp": True}}
 
 
